@@ -340,10 +340,56 @@ def l6(ctx, rid):
     c08.d1(ctx, rid)
 
 
+def l7(ctx, rid):
+    """a deadline armed for deferred work is not wiped: no store of None into the worker's deadline field is reachable after a
+    call that may arm it (update_deadline / a Some store) in the same body"""
+    prog = ctx.prog
+    L, E = prog.may_reach()
+    n = 0
+    for f in prog.fns.values():
+        if f.file != WORKER_FILE:
+            continue
+        clears = []
+        for i, b in enumerate(f.blocks):
+            if b['c'] or i not in f.reachable():
+                continue
+            for s in b['s']:
+                if s['k'] == 'a' and core.place_fields(s['d'])[-1:] == ['next_deadline']:
+                    ogs = core.origins(f, s['r']['o']) if s['r']['k'] == 'use' else ([core.Origin('agg', f, i, s['r'])] if s['r']['k'] == 'agg' else [])
+                    if ogs and all(o.kind == 'agg' and o.data.get('variant') == 'None' for o in ogs):
+                        clears.append(i)
+        if not clears:
+            continue
+        arms = []
+        for c in f.calls:
+            if c.bb not in f.reachable() or c.name == 'poll':
+                continue
+            for t in prog.resolve(c):
+                if t in prog.fns and (t.endswith('::update_deadline') or any(x.endswith('::update_deadline') for x in L.get(t, ()))):
+                    arms.append(c)
+        for cl in clears:
+            n += 1
+            key = 'deadline-not-wiped|%s' % prog.fns[f.id].root
+            late = [a for a in arms if cl in f.reach_from(f.after(a.bb))]
+            if late:
+                ctx.bad(rid, key, f.where(cl), 'the worker deadline is reset to None after `%s`, which may have re-armed it: the deferred work (index dump) it was armed for never runs' % late[0].name)
+            else:
+                ctx.ok(rid, key, f.where(cl), 'the reset precedes every call that may arm the deadline')
+    if n < 1:
+        raise core.AnchorLost('no reset of the worker deadline found')
+
+
+def l8(ctx, rid):
+    import props.c12 as c12
+    c12.s8(ctx, rid, only_sync=False)
+
+
 RULES = [
     Rule('C13.L1', 'the worker loop is only left through the Stop arm (recv() == None) and contains no reachable panic written in the worker module', l1, 4),
     Rule('C13.L3', 'one channel, Sender never cloned, stored only in the Running state, dropped before the worker handle is awaited', l3, 4),
     Rule('C13.L4', 'no guard is live where close() waits for the worker', l4, 1),
     Rule('C13.L5', 'after every ok write the size/count rotation condition is evaluated and its true edge sends the rotation request; the handler reaches blob replacement', l5, 2),
     Rule('C13.L6', 'no armed wait-for cycle involves the worker (same graph as C08.D1)', l6, 1),
+    Rule('C13.L7', 'a deadline armed for deferred work is never wiped by a later reset in the same body', l7, 1),
+    Rule('C13.L8', 'request-pending / in-progress flags are released on every path of their handler (C12.S8 instances)', l8, 1),
 ]
